@@ -173,4 +173,182 @@ theorem processWager_keeps (b b' : Book) (o betId : Nat) (ov mult : Dec) (mo : L
       · rw [← h1]
         exact keeps_of_parts_eq (b := (loop o ov mult mo ms thr q f0).book) rfl fl.idx h'
 
+-- ---------------------------------------------------------------------------------------------
+-- messages keep well-formedness
+
+/-- the common argument: new bets are PLACED with existing backing participations, new market records are open or
+    resolved, and no participation of any book disappears -/
+theorem HInv.of_frame {s s' : State} (hH : HInv s)
+    (hbets : ∀ x ∈ s'.bets, x ∈ s.bets ∨ (x.status = BS_PLACED ∧
+      ∀ f ∈ x.fulfs, ∃ b p, getBook s' x.market = some b ∧ b.getPart f.idx = some p))
+    (hmk : ∀ m ∈ s'.markets, m ∈ s.markets ∨ isOpenStatus m.status = true ∨ isResolvedStatus m.status = true)
+    (hbooks : ∀ u b, getBook s u = some b → ∃ b', getBook s' u = some b' ∧ KeepsParts b b') : HInv s' := by
+  refine ⟨?_, ?_, ?_⟩
+  · intro x hx
+    rcases hbets x hx with h | h
+    · exact hH.betStatus x h
+    · exact Or.inl h.1
+  · intro m hm
+    rcases hmk m hm with h | h
+    · exact hH.marketStatus m h
+    · exact h
+  · intro x hx ho f hf
+    rcases hbets x hx with h | h
+    · obtain ⟨b, p, h1, h2⟩ := hH.fulfParts x h ho f hf
+      obtain ⟨b', h3, hk⟩ := hbooks _ _ h1
+      obtain ⟨p', hp'⟩ := Option.isSome_iff_exists.mp (hk f.idx (by rw [h2]; rfl))
+      exact ⟨b', p', h3, hp'⟩
+    · exact h.2 f hf
+
+theorem HInv.of_eq {s s' : State} (hH : HInv s) (h1 : s'.bets = s.bets) (h2 : s'.markets = s.markets) (h3 : s'.books = s.books) :
+    HInv s' :=
+  hH.of_frame (fun x hx => Or.inl (by rw [← h1]; exact hx)) (fun m hm => Or.inl (by rw [← h2]; exact hm))
+    (fun u b hb => ⟨b, by rw [getBook_congr h3]; exact hb, KeepsParts.refl b⟩)
+
+/-- one book is replaced by a copy that keeps its participations -/
+theorem books_keep {s : State} {bk B : Book} (books' : List Book) (hb : getBook s B.uid = some bk)
+    (hbooks : books' = upsert Book.key B s.books) (hk : KeepsParts bk B) (u : Nat) (b : Book) (h : getBook s u = some b) :
+    ∃ b', lookup Book.key [u] books' = some b' ∧ KeepsParts b b' := by
+  by_cases hu : B.uid = u
+  · subst hu
+    rw [hb] at h; cases h
+    exact ⟨B, by rw [hbooks]; exact lookup_upsert_self Book.key B s.books, hk⟩
+  · refine ⟨b, ?_, KeepsParts.refl b⟩
+    rw [hbooks, lookup_upsert_ne Book.key B [u] s.books (by simp [Book.key, hu])]
+    exact h
+
+theorem step_hinv_msg (s : State) (op : Op) (hS : SettleInv s) (hH : HInv s) (hne : op ≠ .endBlock) :
+    HInv (step s op).1 := by
+  cases op with
+  | marketAdd c tk u st en o stt =>
+    simp only [step, marketAdd, commit]
+    cases h : marketAddO s c tk u st en o stt with
+    | none => exact hH
+    | some s' =>
+      unfold marketAddO at h
+      simp only [bind, Option.bind_eq_some_iff, pure, Option.some.injEq] at h
+      obtain ⟨_, _, _, _, _, hop, _, _, _, _, _, _, _, hbn, rfl⟩ := h
+      have hop : isOpenStatus stt = true := chk_some hop
+      have hbn : getBook s u = none := by simpa using chk_some hbn
+      refine hH.of_frame (fun x hx => Or.inl hx) ?_ ?_
+      · intro m hm
+        rcases mem_upsert_or Market.key _ m s.markets hm with rfl | hm
+        · exact Or.inr (Or.inl hop)
+        · exact Or.inl hm
+      · intro v b hb
+        have hne : u ≠ v := by intro e; subst e; rw [hbn] at hb; cases hb
+        exact ⟨b, by
+          show getBook (setBook s (newBook u o)) v = some b
+          rw [getBook_setBook_ne _ _ _ (by show (newBook u o).uid ≠ v; exact hne)]; exact hb, KeepsParts.refl b⟩
+  | marketUpdate tk u st en stt =>
+    simp only [step, marketUpdate, commit]
+    cases h : marketUpdateO s tk u st en stt with
+    | none => exact hH
+    | some s' =>
+      unfold marketUpdateO at h
+      simp only [bind, Option.bind_eq_some_iff, pure, Option.some.injEq] at h
+      obtain ⟨_, _, m0, _, _, _, _, hop, _, _, rfl⟩ := h
+      have hop : isOpenStatus stt = true := chk_some hop
+      refine hH.of_frame (fun x hx => Or.inl hx) ?_ (fun v b hb => ⟨b, hb, KeepsParts.refl b⟩)
+      intro m hm
+      rcases mem_upsert_or Market.key _ m s.markets hm with rfl | hm
+      · exact Or.inr (Or.inl hop)
+      · exact Or.inl hm
+  | marketResolve tk u ts stt w =>
+    simp only [step, marketResolve, commit]
+    cases h : marketResolveO s tk u ts stt w with
+    | none => exact hH
+    | some s' =>
+      obtain ⟨_, _, _, hrs, _, _⟩ := c07_resolve h
+      unfold marketResolveO at h
+      simp only [bind, Option.bind_eq_some_iff, pure, Option.some.injEq] at h
+      obtain ⟨_, _, _, _, m0, _, _, _, _, _, rfl⟩ := h
+      refine hH.of_frame (fun x hx => Or.inl hx) ?_ (fun v b hb => ⟨b, hb, KeepsParts.refl b⟩)
+      intro m hm
+      rcases mem_upsert_or Market.key _ m s.markets hm with rfl | hm
+      · exact Or.inr (Or.inr hrs)
+      · exact Or.inl hm
+  | deposit c tk mk a pd =>
+    simp only [step, houseDeposit]
+    cases h : houseDepositO s c tk mk a pd with
+    | none => exact hH
+    | some r =>
+      unfold houseDepositO at h
+      simp only [bind, Option.bind_eq_some_iff, pure, Option.some.injEq] at h
+      obtain ⟨_, _, _, _, _, _, s1, hs1, _, _, m, _, b, hb, _, _, _, _, _, _, _, _, s2, hs2, s3, hs3, rfl⟩ := h
+      obtain ⟨gs, rfl⟩ := grantStep_shape hs1
+      obtain ⟨_, _, rfl⟩ := bankSend_shape hs2
+      obtain ⟨_, _, rfl⟩ := bankSend_shape hs3
+      have hb : getBook s mk = some b := hb
+      obtain ⟨_, hbu⟩ := getBook_mem hb
+      obtain ⟨e1, _, e3⟩ := addParticipation_shape b (depositFor c pd) (a - (s.params.houseFee.mulInt a).roundInt)
+        (s.params.houseFee.mulInt a).roundInt
+      refine hH.of_frame (fun x hx => Or.inl hx) (fun m hm => Or.inl hm) ?_
+      exact books_keep _ (by rw [e1, hbu]; exact hb) rfl (keeps_of_parts _ e3)
+  | withdraw c tk mk i md a pd =>
+    simp only [step, houseWithdraw, commit]
+    cases h : houseWithdrawO s c tk mk i md a pd with
+    | none => exact hH
+    | some s' =>
+      unfold houseWithdrawO at h
+      simp only [bind, Option.bind_eq_some_iff, pure, Option.some.injEq] at h
+      obtain ⟨_, _, _, _, _, _, _, _, _, _, d, _, b, hb, _, _, w, _, s1, hs1, p, hpp, s2, hs2, b', hb', rfl⟩ := h
+      obtain ⟨gs, rfl⟩ := grantStep_shape hs1
+      obtain ⟨_, _, rfl⟩ := bankSend_shape hs2
+      obtain ⟨_, hbu⟩ := getBook_mem hb
+      obtain ⟨e1, _, e3⟩ := withdraw_shape hpp hb'
+      refine hH.of_frame (fun x hx => Or.inl hx) (fun m hm => Or.inl hm) ?_
+      exact books_keep _ (by rw [e1, hbu]; exact hb) rfl (keeps_of_parts _ e3)
+  | wager c tk u a pl =>
+    simp only [step, wager, commit]
+    cases h : wagerO s c tk u a pl with
+    | none => exact hH
+    | some s' =>
+      unfold wagerO at h
+      simp only [bind, Option.bind_eq_some_iff, pure, Option.some.injEq] at h
+      obtain ⟨_, _, _, _, _, _, _, _, _, _, _, _, _, _, m, _, _, _, _, _, _, _, _, _, _, _, _, _, ov, _, _, _, b, hb, r, hr,
+        s1, hs1, s2, hs2, rfl⟩ := h
+      obtain ⟨b', fulfs, taken⟩ := r
+      obtain ⟨_, _, rfl⟩ := bankSend_shape hs1
+      obtain ⟨_, _, rfl⟩ := bankSend_shape hs2
+      obtain ⟨hbm, hbu⟩ := getBook_mem hb
+      have hu' := processWager_uid _ _ _ _ _ _ _ _ _ _ _ _ _ hr
+      obtain ⟨hk, hfp⟩ := processWager_keeps _ _ _ _ _ _ _ _ _ _ _ _ _ (hS.sortedParts b hbm) hr
+      have hgb' : lookup Book.key [pl.market] (upsert Book.key b' s.books) = some b' := by
+        have := lookup_upsert_self Book.key b' s.books
+        rw [show Book.key b' = [pl.market] from by show [b'.uid] = _; rw [hu', hbu]] at this
+        exact this
+      refine hH.of_frame ?_ (fun m hm => Or.inl hm) ?_
+      · intro x hx
+        rcases mem_upsert_or Bet.key _ x s.bets hx with rfl | hx
+        · refine Or.inr ⟨rfl, ?_⟩
+          intro f hf
+          obtain ⟨p', hp'⟩ := Option.isSome_iff_exists.mp (hfp f hf)
+          exact ⟨b', p', hgb', hp'⟩
+        · exact Or.inl hx
+      · exact books_keep _ (by rw [hu', hbu]; exact hb) rfl hk
+  | grant g e k l x => exact hH.of_eq rfl rfl rfl
+  | revoke g e k => exact hH.of_eq rfl rfl rfl
+  | send a b x =>
+    simp only [step]
+    split
+    · exact hH
+    · unfold commit
+      cases h : bankSend s a b x with
+      | none => exact hH
+      | some s' =>
+        obtain ⟨_, _, rfl⟩ := bankSend_shape h
+        exact hH.of_eq rfl rfl rfl
+  | setParams p =>
+    simp only [step]
+    split
+    · exact hH.of_eq rfl rfl rfl
+    · exact hH
+  | endBlock => exact absurd rfl hne
+  | newBlock h t => exact hH.of_eq rfl rfl rfl
+
+theorem hinv_init (p : Params) (bal : List (Nat × Int)) (h t : Nat) :
+    HInv { bal := bal, params := p, height := h, time := t } :=
+  ⟨(fun _ hx => nomatch hx), (fun _ hm => nomatch hm), (fun _ hx => nomatch hx)⟩
+
 end Sge.Core
